@@ -36,9 +36,10 @@ TCall ==
    /\ LET ev == Log[l]
           r == IF ev.op = "field_name" THEN NameAll(ev.inp) ELSE ParseAll(ev.inp, 1, <<>>)
       IN IF r.ok /\ ev.op # "field_name" /\ MaxDepth(r.parts) >= 2 THEN UNCHANGED bad   \* outside the stated scope
-         ELSE IF r.ok # ev.ok THEN bad' = Append(bad, [at |-> l, why |-> IF r.ok THEN "rejects_valid" ELSE "accepts_invalid",
-                                                       tags |-> TagsOf(r.ok, IF r.ok THEN "" ELSE r.why, IF r.ok THEN r.parts ELSE <<>>)])
-         ELSE IF r.ok /\ r.parts # ev.parts THEN bad' = Append(bad, [at |-> l, why |-> "parts", tags |-> TagsOf(TRUE, "", r.parts)])
+         ELSE IF r.ok # ev.ok THEN bad' = Append(bad, [at |-> l, pinned |-> (ev.op # "field_name" /\ LET q == Pinned(ev.inp) IN q.ok = ev.ok /\ (q.ok => q.parts = ev.parts)),
+                                                       why |-> IF r.ok THEN "rejects_valid" ELSE "accepts_invalid",
+                                                       tags |-> TagsOfIn(r.ok, IF r.ok THEN "" ELSE r.why, IF r.ok THEN r.parts ELSE <<>>, ev.inp)])
+         ELSE IF r.ok /\ r.parts # ev.parts THEN bad' = Append(bad, [at |-> l, pinned |-> (ev.op # "field_name" /\ LET q == Pinned(ev.inp) IN q.ok /\ q.parts = ev.parts), why |-> "parts", tags |-> TagsOf(TRUE, "", r.parts)])
          ELSE UNCHANGED bad
    /\ UNCHANGED vars
 
